@@ -51,7 +51,7 @@ CHECKS = {
     note="Assumed: contracts of std::unordered_set / std::queue / boost::out_edges, the std::map/std::vector/boost::edges bindings of the extraction, the informal lemma of DESIGN 10.7."),
  "C05": dict(
     engine="E1+E3", category="other", design_ref="DESIGN.md 4/C05, 3 (K18)",
-    technique="CBMC DFCC nested loop contracts on the extracted translation loop of run() (caller's edges, caller's weights) + bounded enforcement of the approximate entry points' contract (basis of the caller's graph by descriptor identity, returned weight = caller weights) on the real templates",
+    technique="CBMC DFCC nested loop contracts on the extracted translation loop of run() (caller's edges, caller's weights) and loop contracts with quantified invariants on the extracted parmcb::dijkstra (exact distances, tight predecessor tree; n<=4/5) + bounded enforcement of the approximate entry points' contract (basis of the caller's graph by descriptor identity, returned weight = caller weights) on the real templates",
     text="Translation loop of run() proved (small ghost tables); the entry points themselves are a bounded stand-in: exact-domain set (all labelled graphs n<=5/6, all weightings n<=4, families, seeded random) x k in {1,2,3,5,n} x {double,int}. Found and repaired: spanner descriptors leaked to the caller, weight omitted.",
     note="Templates outside CBMC's reach. Use-after-free aspect observed under ASan in C07."),
  "C06": dict(
